@@ -154,7 +154,7 @@ def ob_rn2data(n):
         idx = _random_number_to_data(p, I["r"])
         ps = list(flat(p))
         return [Holds("0 <= outcome < len(p)", 0 <= idx < n), Holds("outcome has non-zero probability", SBool.of(ps[idx] > 0))]
-    return FnOb(p_inputs(n) + [("r", "real", 0.0, 1.0 - 2 ** -53)], run, assume=lambda I: p_assume(I, n), max_paths=40)
+    return FnOb(p_inputs(n) + [("r", "real", 0.0, 1.0 - 2 ** -53)], run, assume=lambda I: p_assume(I, n), max_paths=400)
 
 
 def ob_gen_data(n, N):
@@ -176,7 +176,7 @@ def ob_gen_data(n, N):
             out.append(Holds(f"datum {k}: draw {k} is not below the cumulative probability of the earlier outcomes", SBool.of(I[f"u{k}"] >= cum_before)))
         return out
     return FnOb(p_inputs(n) + [(f"u{k}", "real", 0.0, 1.0 - 2 ** -53) for k in range(N)], run,
-                assume=lambda I: p_assume(I, n), max_paths=400, stubs=["numpy Generator.random: arbitrary draws in [0,1) supplied as symbolic inputs"])
+                assume=lambda I: p_assume(I, n), max_paths=4000, stubs=["numpy Generator.random: arbitrary draws in [0,1) supplied as symbolic inputs"])
 
 
 def ob_empi(m, L, K):
